@@ -83,6 +83,7 @@ struct Ghost {
     win_injected: BTreeSet<u64>, // conn ids whose window was injected by `setlink w=` while the link was down
     last_hk: Option<u64>,        // time of the previous housekeeping tick (coverage counter only)
     heard_at: BTreeMap<u64, u64>, // conn id -> time of the last datagram (>= 2 bytes) the harness delivered on that uplink
+    live_at: BTreeMap<u64, u64>,  // conn id -> time of the last datagram that refreshes liveness: non-registration (C09) or REG3
     max_cto: u64,                 // largest connection timeout configured so far in this case (>= the 5000 ms default)
     client_seen: bool,            // a non-empty datagram from the SRT client has been handed to the shell
 }
@@ -334,6 +335,125 @@ impl SysComp {
         }
     }
 
+    /// `liveloop modeswitch`: `run_sender_with_config` on loopback against a minimal receiver (answers the
+    /// handshake, echoes keepalives, never sends ACK / SRTLA ACK / NAK) with no client traffic. Enhanced mode
+    /// until the once-per-second time-based recovery has visibly lifted the window, then `set_mode(classic)`
+    /// at run time; from the first telemetry snapshot that reports classic mode on, the window must not rise
+    /// any more (C06 / C10: classic mode never applies time-based recovery). Every wait is a poll with a
+    /// generous deadline; trouble with the environment skips the scenario, it never alarms.
+    fn live_loop(&mut self, what: &str, mon: &mut Mon) {
+        use srtla_send::config::DynamicConfig;
+        use srtla_send::sender::run_sender_with_config;
+        use srtla_send::stats::SharedStats;
+        use srtla_send::subscriptions::SubscriptionHub;
+        use std::sync::atomic::{AtomicBool, Ordering as AO};
+        use std::time::{Duration, Instant};
+        if what != "modeswitch" {
+            mon.count("liveloop-unknown");
+            return;
+        }
+        verif_clock::set(None);
+        let Ok(rsock) = StdUdp::bind("127.0.0.1:0") else {
+            mon.count("liveloop-skipped:io");
+            return;
+        };
+        let _ = rsock.set_read_timeout(Some(Duration::from_millis(100)));
+        let receiver_port = rsock.local_addr().map(|a| a.port()).unwrap_or(0);
+        let srt_port = StdUdp::bind("[::]:0").ok().and_then(|s| s.local_addr().ok()).map(|a| a.port()).unwrap_or(0);
+        let ips_path = std::env::temp_dir().join(format!("verif-liveloop-{}-{}.txt", std::process::id(), receiver_port));
+        if receiver_port == 0 || srt_port == 0 || std::fs::write(&ips_path, "127.0.0.1\n").is_err() {
+            mon.count("liveloop-skipped:io");
+            return;
+        }
+        let stop = Arc::new(AtomicBool::new(false));
+        let rthread = {
+            let stop = stop.clone();
+            std::thread::spawn(move || {
+                let mut buf = [0u8; 2048];
+                let mut group: Option<Vec<u8>> = None;
+                while !stop.load(AO::Relaxed) {
+                    let Ok((n, src)) = rsock.recv_from(&mut buf) else { continue };
+                    if n < 2 {
+                        continue;
+                    }
+                    let ty = u16::from_be_bytes([buf[0], buf[1]]);
+                    if ty == SRTLA_TYPE_REG1 && n >= 258 {
+                        group = Some(buf[2..258].to_vec());
+                        let mut reply = buf[..258].to_vec();
+                        reply[..2].copy_from_slice(&SRTLA_TYPE_REG2.to_be_bytes());
+                        let _ = rsock.send_to(&reply, src);
+                    } else if ty == SRTLA_TYPE_REG2 && n >= 258 {
+                        if group.as_deref() == Some(&buf[2..258]) {
+                            let _ = rsock.send_to(&SRTLA_TYPE_REG3.to_be_bytes(), src);
+                        } else {
+                            let _ = rsock.send_to(&SRTLA_TYPE_REG_NGP.to_be_bytes(), src);
+                        }
+                    } else if ty == SRTLA_TYPE_KEEPALIVE {
+                        let _ = rsock.send_to(&buf[..n], src);
+                    }
+                }
+            })
+        };
+        let Ok(rt) = tokio::runtime::Builder::new_multi_thread().worker_threads(2).enable_all().build() else {
+            stop.store(true, AO::Relaxed);
+            let _ = rthread.join();
+            mon.count("liveloop-skipped:io");
+            return;
+        };
+        let config = DynamicConfig::new();
+        let stats = SharedStats::new();
+        let sender = {
+            let (config, stats) = (config.clone(), stats.clone());
+            let file = ips_path.to_string_lossy().into_owned();
+            rt.spawn(async move {
+                let binder: Arc<dyn srtla_send::net::UplinkBinder> = Arc::new(srtla_send::net::SourceIpBinder);
+                let _ = run_sender_with_config(srt_port, "127.0.0.1", receiver_port, &file, config, stats, CriticalWindow::new(), SubscriptionHub::new(), binder).await;
+            })
+        };
+        let wait = |pred: &dyn Fn(&srtla_send::stats::StatsSnapshot) -> bool, secs: u64| -> Option<srtla_send::stats::StatsSnapshot> {
+            let t0 = Instant::now();
+            while t0.elapsed() < Duration::from_secs(secs) {
+                let s = stats.get();
+                if pred(&s) {
+                    return Some(s);
+                }
+                std::thread::sleep(Duration::from_millis(40));
+            }
+            None
+        };
+        let outcome: Result<(i32, i32), &'static str> = (|| {
+            // enhanced: registered, and the time-based recovery has lifted the window above 20000
+            wait(&|s| s.links.len() == 1 && s.links[0].connected && s.links[0].window > 20000, 60).ok_or("liveloop-skipped:not-registered")?;
+            config.set_mode(SchedulingMode::Classic);
+            let first = wait(&|s| s.mode == "classic" && s.links.len() == 1 && s.links[0].connected, 60).ok_or("liveloop-skipped:no-classic-snapshot")?;
+            let w_switch = first.links[0].window;
+            // at least three more housekeeping passes, all of them classic
+            std::thread::sleep(Duration::from_millis(3400));
+            let later = stats.get();
+            if later.mode != "classic" || later.links.len() != 1 {
+                return Err("liveloop-skipped:lost-link");
+            }
+            Ok((w_switch, later.links[0].window))
+        })();
+        sender.abort();
+        rt.shutdown_background();
+        stop.store(true, AO::Relaxed);
+        let _ = rthread.join();
+        let _ = std::fs::remove_file(&ips_path);
+        match outcome {
+            Err(why) => mon.count(why),
+            Ok((w_switch, w_later)) => {
+                mon.count("liveloop-modeswitch");
+                mon.nontrivial();
+                if w_later > w_switch {
+                    let what = format!("real event loop: after a run-time switch to classic mode (telemetry reports classic) the window rose {w_switch} -> {w_later} within 3.4 s with no ACK / NAK traffic at all: time-based recovery is still applied");
+                    mon.fail("C06", "liveloop-classic-recovery", what.clone());
+                    mon.fail("C10", "liveloop-classic-recovery", what);
+                }
+            }
+        }
+    }
+
     /// Is the link's current socket the dead one swapped in by `deadsock` (a successful re-creation ends that)?
     fn is_dead(w: &World, cid: u64) -> bool {
         match (w.dead.get(&cid), w.io.get(&cid)) {
@@ -526,6 +646,12 @@ impl Component for SysComp {
     }
 
     fn exec(&mut self, toks: &[&str], mon: &mut Mon) -> String {
+        if let ["liveloop", what] = toks {
+            // the REAL event loop against an in-process fake receiver, real clock: no model state, constant
+            // reply (the model driver answers the same); monitors only
+            self.live_loop(what, mon);
+            return "liveloop-ok".into();
+        }
         if let ["deadsock", cid, on] = toks {
             self.unmodelled = true;
             mon.count("unmodelled-case:deadsock");
@@ -732,6 +858,14 @@ impl SysComp {
             Op::Client(n, _) | Op::Uplink(n, _, _) | Op::Burst(n, _, _, _) => *n,
             _ => 0,
         };
+        // the housekeeping arm of the event loop first publishes the configured liveness window onto the links
+        // (`sync_conn_timeout`, /repo fix f969643; tie c pin `event-loop: housekeeping arm`), then runs the pass:
+        // done here so that the monitors' pre-state is the state the pass itself sees
+        if let Op::Hk(_) = &parsed {
+            let w = self.w.as_mut().unwrap();
+            let cfg = w.cfg;
+            srtla_core::selection::sync_conn_timeout(&mut w.links, &cfg);
+        }
         // ---- pre-state for the monitors
         let pre: Vec<Pre> = self.w.as_ref().unwrap().links.iter().map(|c| pre_of(c, now)).collect();
         let pre_ids: Vec<u64> = self.w.as_ref().unwrap().links.iter().map(|c| c.conn_id).collect();
@@ -907,6 +1041,9 @@ impl SysComp {
             if data.len() >= 2 && known_link {
                 if let Ok(cid) = toks[2].parse::<u64>() {
                     self.g.heard_at.insert(cid, now);
+                    if get_packet_type(&data).is_some_and(|pt| !is_registration(pt) || pt == SRTLA_TYPE_REG3) {
+                        self.g.live_at.insert(cid, now);
+                    }
                 }
                 let pt = get_packet_type(&data).unwrap();
                 let got = client.iter().filter(|d| **d == data).count();
@@ -963,6 +1100,18 @@ impl SysComp {
             }
             match g.tag_of.get(d) {
                 Some(t) => {
+                    // C04, second sentence, at WIRE level: once the session is established an uplink that is
+                    // registering (not registered since its last tear-down) carries no client datagram at
+                    // all - every tear-down empties its queue, nothing is enqueued on it afterwards
+                    if pre_has_connected {
+                        if let Some(i) = pre_ids.iter().position(|x| x == id) {
+                            if i < pre.len() && pre[i].phase_reg && !pre[i].connected {
+                                mon.fail("C04", "client-data-on-registering-link", format!("link {id} was registering (not connected) when `{}` put client datagram #{t} on its wire", &op[..op.len().min(40)]));
+                            } else {
+                                mon.count("client-data-on-registered-link");
+                            }
+                        }
+                    }
                     let v = g.wire_tags.entry(*id).or_default();
                     if v.last().is_some_and(|l| *l >= *t) {
                         mon.fail("C01", "order", format!("link {id}: datagram #{t} went on the wire after #{} ({op})", v.last().unwrap()));
@@ -1012,8 +1161,17 @@ impl SysComp {
                     mon.fail("C08", "teardown-without-cause", format!("link {} torn down by `{}` without timeout / send failure / REG_ERR (pre: connected={} timed_out={})", c.conn_id, &op[..op.len().min(60)], pre[i].connected, pre[i].timed_out));
                 }
                 if by_timeout && pre[i].connected {
-                    // connected link: silence must have lasted the configured timeout
+                    // connected link: silence must have lasted the CONFIGURED timeout (the value in force at
+                    // this tick, not whatever copy the link carried); ghost = datagrams the harness delivered
                     mon.count("teardown-by-timeout");
+                    if let Some(h) = g.live_at.get(&c.conn_id) {
+                        let silent = now.saturating_sub(*h);
+                        if silent < cfg.conn_timeout_ms {
+                            mon.fail("C08", "torn-down-before-configured-timeout", format!("link {} torn down by housekeeping at {now} after {silent} ms of silence (last liveness-refreshing datagram delivered at {h}); the configured timeout is {} ms", c.conn_id, cfg.conn_timeout_ms));
+                        } else {
+                            mon.count("teardown-after-configured-timeout");
+                        }
+                    }
                 }
             }
             if torn || attempt {
@@ -1337,6 +1495,9 @@ impl SysComp {
                 if data.len() >= 2 {
                     g.heard_at.insert(cid, now);
                     let pt = get_packet_type(&data).unwrap();
+                    if !is_registration(pt) || pt == SRTLA_TYPE_REG3 {
+                        g.live_at.insert(cid, now);
+                    }
                     // "once a client address is known": the shell has received a non-empty datagram from the
                     // client (ghost), whatever became of that datagram
                     if g.client_seen != pre_client_known {
@@ -1620,6 +1781,10 @@ const BINDFAIL_BUDGET: u32 = 3;
 fn gen_case(rng: &mut Rng, tier: Tier, idx: usize) -> Vec<String> {
     // special scenarios reaching code the scripted-random histories rarely or never reach
     // (found by an LLVM coverage run of the real code under this harness, see DESIGN.md section 11)
+    if idx == 41 && matches!(std::env::var("VERIF_PROP").as_deref(), Ok("C06") | Ok("C10") | Err(_)) {
+        // whole-loop scenario (real time, ~8 s): runtime mode switch, then no time-based recovery
+        return vec!["liveloop modeswitch".to_string()];
+    }
     if idx % 29 == 11 {
         return gen_long_rtt_history(rng);
     }
@@ -1628,6 +1793,9 @@ fn gen_case(rng: &mut Rng, tier: Tier, idx: usize) -> Vec<String> {
     }
     if idx % 41 == 23 {
         return gen_dead_socket(rng);
+    }
+    if idx % 43 == 29 {
+        return gen_idle_session_timeout(rng);
     }
     let n = rng.range(1, 4) as usize;
     let seed = rng.below(1 << 30);
@@ -2514,6 +2682,48 @@ fn gen_never_connects(rng: &mut Rng) -> Vec<String> {
         }
     }
     ops.push(format!("flush {}", now + 15));
+    ops
+}
+
+/// A registered session with NO client traffic (encoder not started or paused) under a connection timeout
+/// that differs from the default, set at start-up or changed at run time: one uplink goes silent. It must be
+/// torn down when it has been silent for the configured timeout - not after the 5 s default, not after the
+/// previous setting.
+fn gen_idle_session_timeout(rng: &mut Rng) -> Vec<String> {
+    let n = rng.range(2, 3) as usize;
+    let seed = rng.below(1 << 30);
+    let mut now: u64 = 1_000_000 + rng.below(500_000);
+    let mut ops = vec![format!("init {n} {seed} {now}")];
+    let cto0 = *rng.pick(&[30_000u64, 12_000, 60_000, 2_000, 1_000, 8_000]);
+    let classic = rng.below(2);
+    let stall = rng.below(2);
+    ops.push(format!("cfg classic={classic} quality=1 stall={stall} minif=32 ceil=3000 cto={cto0}"));
+    let hexs = |b: &[u8]| to_hex(b);
+    ops.push(format!("uplink {now} 1 {}", hexs(&SRTLA_TYPE_REG_NGP.to_be_bytes())));
+    now += 300;
+    ops.push(format!("hk {now}"));
+    for i in 0..n {
+        now += 5;
+        ops.push(format!("uplink {now} {} {}", i + 1, hexs(&SRTLA_TYPE_REG3.to_be_bytes())));
+    }
+    let silent = rng.below(n as u64) as usize;
+    let silent_from = rng.range(1, 4);
+    let change_at = if rng.chance(1, 2) { Some(rng.range(2, 8)) } else { None };
+    let cto1 = *rng.pick(&[45_000u64, 20_000, 3_000, 5_000, 9_000]);
+    let mut tick = now + 700;
+    let ticks = rng.range(12, 70);
+    for t in 0..ticks {
+        if change_at == Some(t) {
+            ops.push(format!("cfg classic={classic} quality=1 stall={stall} minif=32 ceil=3000 cto={cto1}"));
+        }
+        ops.push(format!("hk {tick}"));
+        for i in 0..n {
+            if i != silent || t < silent_from {
+                ops.push(format!("uplink {} {} {}", tick + 20, i + 1, hexs(&create_keepalive_packet(tick).to_vec())));
+            }
+        }
+        tick += *rng.pick(&[1000u64, 1000, 1000, 1001, 1500]);
+    }
     ops
 }
 
